@@ -35,6 +35,8 @@ pub struct PeerFns {
     pub admin: fn(&Addr, Option<&str>) -> WasmMsg,
     pub save_remote: fn(&mut dyn Storage, &str, &Addr, u8) -> StdResult<()>,
     pub resave_remote: fn(&mut dyn Storage, &str, &str) -> StdResult<Addr>,
+    /// schema name of `Remote<'static, this type>`
+    pub schema_name: fn() -> String,
 }
 
 static REG: OnceLock<BTreeMap<String, PeerFns>> = OnceLock::new();
@@ -45,4 +47,8 @@ pub fn install(map: BTreeMap<String, PeerFns>) {
 
 pub fn get(ty: &str) -> Option<&'static PeerFns> {
     REG.get().and_then(|m| m.get(ty))
+}
+
+pub fn all() -> Vec<(&'static String, &'static PeerFns)> {
+    REG.get().map(|m| m.iter().collect()).unwrap_or_default()
 }
